@@ -503,6 +503,7 @@ class Result:
         self.hist_hash = None
         self.first_error = None
         self.build_steps = 0
+        self.backend = None
 
 
 # --------------------------------------------------------------------------
@@ -602,7 +603,7 @@ def rewire(case, tasks):
 
 def run_controlled(case, strategy, mon=None, env=None, tasks_graphs=None,
                    max_steps=100000, clock0=0, fine=None, repeat=1,
-                   then=None, then_always=False):
+                   then=None, then_always=False, backend=None):
     '''One run of the real scheduler under the controller.'''
     # pylint: disable=too-many-locals,too-many-statements
     import valjean.cosette.backends.queue as qmod
@@ -637,9 +638,16 @@ def run_controlled(case, strategy, mon=None, env=None, tasks_graphs=None,
         remove_lines, line_hits = _yield_injection(fine[0], fine[1],
                                                    action=line_point)
     with patches:
-        backend = qmod.QueueScheduling(n_workers=case['workers'])
+        if backend is None:
+            backend = qmod.QueueScheduling(n_workers=case['workers'])
+        else:
+            # a backend object that served earlier runs (its work queue is
+            # re-created: cooperative primitives belong to one controller)
+            backend.n_workers = case['workers']
+            backend.queue = ctlmod.CoopQueue(ctl)
         if not isinstance(backend.queue, ctlmod.CoopQueue):
             backend.queue = ctlmod.CoopQueue(ctl)
+        res.backend = backend
         ctl.register_current('M')
         ctl.start_watchdog()
         try:
